@@ -51,13 +51,15 @@ impl LogModel {
     fn last_index(&self) -> u64 {
         self.last().0
     }
-    /// Raft's preconditions on the caller: appends are contiguous with the log (index ≤ last+1)
-    /// and never reach below the snapshot; terms never decrease along the log.
+    /// Preconditions on the caller: appends are contiguous with the log (index ≤ last+1) and
+    /// terms never decrease along the log. Appends at or below the snapshot index are allowed.
     fn applicable(&self, op: &LogOp) -> bool {
         match op {
             LogOp::Append { start, terms } => {
-                let snap = self.snapshot.map(|s| s.0).unwrap_or(0);
-                if *start < 1 || *start > self.last_index() + 1 || *start <= snap {
+                // The property speaks of ANY sequence of appends, truncations and snapshots, so an
+                // append at or below the snapshot index is in the domain (a leader rewriting an
+                // index the follower had snapshotted); only gaps are excluded.
+                if *start < 1 || *start > self.last_index() + 1 {
                     return false;
                 }
                 // term of predecessor entry must not exceed first new term
@@ -193,13 +195,26 @@ fn c31_alphabet(max_index: u64, max_term: u64) -> Vec<LogOp> {
     ops
 }
 
+/// does the sequence hold an append whose start is at or below the snapshot index in force?
+fn below_snapshot_append(ops: &[LogOp]) -> bool {
+    let mut snap = 0u64;
+    for op in ops {
+        match op {
+            LogOp::Snapshot { index, .. } => snap = *index,
+            LogOp::Append { start, .. } if snap > 0 && *start <= snap => return true,
+            _ => {}
+        }
+    }
+    false
+}
+
 fn c31(args: &Args) {
     let mut ev = Evidence::new(
         args,
         "exploration",
-        "bounded-exhaustive DFS (depth 4 quick / 5 thorough) over {append 1-2 consecutive entries at index i<=last+1 (terms non-decreasing), delete_entries_from(i), create_snapshot(i,t)} with indices 1..=4 (5) and terms 1..=2 (3), plus random longer sequences; every read view compared with a reference log after every step. Non-trivial = sequence contains an append at an existing index or a snapshot below the last index; distinct = distinct op sequences.",
+        "bounded-exhaustive DFS (depth 4 quick / 5 thorough) over {append 1-2 consecutive entries at index i<=last+1 incl. at or below the snapshot index (terms non-decreasing), delete_entries_from(i), create_snapshot(i,t)} with indices 1..=4 (5) and terms 1..=2 (3), plus random longer sequences; every read view compared with a reference log after every step. Non-trivial = sequence contains an append at an existing index or a snapshot below the last index; distinct = distinct op sequences.",
     );
-    ev.assume("Raft caller preconditions: appends are contiguous (index <= last+1, above the snapshot), terms never decrease along the log, snapshots move forward");
+    ev.assume("caller preconditions: appends are contiguous (index <= last+1; at or below the snapshot index is allowed), terms never decrease along the log, snapshots move forward");
     let kf = Known::load(args);
     let rt = tokio::runtime::Builder::new_current_thread().build().unwrap();
     let tmp = tempfile::tempdir().unwrap();
@@ -263,6 +278,9 @@ fn c31(args: &Args) {
                 ev.case();
                 match catch(|| c31_run(rt, dir, stack)) {
                     Ok(Ok(interesting)) => {
+                        if below_snapshot_append(stack) {
+                            ev.class("append_at_or_below_snapshot_index");
+                        }
                         if interesting {
                             ev.nontrivial(&*stack);
                             ev.class("nontrivial");
